@@ -1,0 +1,11 @@
+// Copyright 2015, Joe Tsai. All rights reserved.
+// Use of this source code is governed by a BSD-style
+// license that can be found in the LICENSE.md file.
+
+//go:build !verif
+// +build !verif
+
+package xflate
+
+// verifTrace is a no-op unless built with the "verif" tag.
+func verifTrace(ev string, n, emitted int64, err error) {}
